@@ -138,10 +138,6 @@ def r3(ctx):
                 disp |= b.field_reads() & fields
     # the key function is the one used by get_column_expr_value
     g = ctx.anchor_hir(GCEV)
-    keyed = [x for x in walk(g) if x["k"] == "Let" and x["pat"].get("name", "").endswith("_str") and "to_string" in render(x.get("init"))]
-    ctx.obligation(bool(keyed))
-    if not keyed:
-        ctx.violation("key/source", ctx.where(GCEV), "the per-row cache key is no longer the expression's text; rule needs review")
     n = 0
     for f in sorted(ev):
         n += 1
@@ -188,86 +184,68 @@ def r3(ctx):
         ctx.violation("key/brackets", ctx.where(DISPLAY), "nested arithmetic operands are not bracketed in the key: `(1 + 2) * 3` and `1 + 2 * 3` share one cached value")
 
 
-def _kind_branch(g, kind):
-    blk = None
-    for x in walk_exprs(g):
-        if x["k"] == "If" and peel(x["c"], methods=False)["k"] == "LetE" and \
-                render(peel(x["c"], methods=False)["init"]).endswith("column_expr.%s" % kind):
-            blk = x
-    return blk
-
-
 def r4(ctx):
-    """unary minus: each evaluator branch for a node kind that can carry `minus` reads it"""
-    g = ctx.anchor_hir(GCEV)
+    """unary minus: the value of a column, function or literal node written with a leading minus is the negated value:
+    get_column_expr_value evaluated (rules/gcev.py) per node kind with and without the minus"""
+    import gcev
+    import interp
+    run = gcev.Run(ctx)
     n = 0
     for kind in ("function", "field", "val"):
-        blk = _kind_branch(g, kind)
-        if blk is None:
-            ctx.violation("minus/%s/anchor" % kind, ctx.where(GCEV), "evaluator branch for `%s` nodes not found" % kind)
+        try:
+            plain, _, _, _ = run.run(kind, False)
+            neg, _, _, _ = run.run(kind, True)
+        except interp.Undecided as e:
+            ctx.obligation(False)
+            ctx.violation("minus/%s/anchor" % kind, ctx.where(GCEV), "cannot evaluate get_column_expr_value on a `%s` node: %s" % (kind, e))
             continue
         n += 1
-        bad = []
-        locs = Locals(blk["t"])
-        for e, holder in leaf_results(blk["t"]):
-            txt = render(locs.chase(e))
-            if "Variant::empty" in txt or txt in ("()",):
-                continue
-            if "minus" not in txt:
-                bad.append(render(e)[:60])
-        ctx.obligation(not bad)
-        if bad:
-            ctx.violation("minus/%s" % kind, ctx.where(GCEV, blk),
-                          "the evaluator returns the value of a `%s` node without applying the expression's leading minus (%s)" % (kind, bad))
-    ctx.covered("evaluator branches (function, field, value) applying Expr.minus", n, distinct_keys=["function", "field", "val"])
+        a, b = gcev.text_of(ctx, plain), gcev.text_of(ctx, neg)
+        ok = a is not None and b == "-" + a
+        ctx.obligation(ok)
+        if not ok:
+            ctx.violation("minus/%s" % kind, ctx.where(GCEV),
+                          "the evaluator returns the value of a `%s` node without applying the expression's leading minus (`%s` without, `%s` with the minus)" % (kind, a, b))
+    ctx.covered("node kinds (function, column, literal) evaluated with and without a leading minus", n, distinct_keys=["function", "field", "val"], exhaustive=True)
 
 
 def r5(ctx):
-    """cache write-through: the value stored under an expression's text is the value returned for it (sign included)"""
-    g = ctx.anchor_hir(GCEV)
+    """the per-row memo: what is stored under an expression's text is the value returned for it (sign included), a stored
+    value is returned as is, and an expression is computed once: get_column_expr_value evaluated (rules/gcev.py) per node
+    kind x minus x memo hit / miss"""
+    import gcev
+    import interp
+    run = gcev.Run(ctx)
     n = 0
-    for kind in ("function", "field"):
-        blk = _kind_branch(g, kind)
-        if blk is None:
-            continue
-        locs = Locals(blk["t"])
-        for e0, holder in leaf_results(blk["t"]):
-            e = peel(e0, methods=False)
-            src = render(locs.chase(e))
-            computed = ("get_function_value" in src or "get_field_value" in src)
-            if not computed:
-                continue    # a value read back from the cache / an empty value
-            n += 1
-            ok = False
-            if e["k"] == "Path" and e.get("rk") == "Local" and holder is not None and holder["k"] == "Block":
-                for s_ in holder["stmts"]:
-                    if any(y is e0 or y is e for y in walk_exprs(s_) if y["k"] in ("Ret",)) or (s_["k"] == "Ret" and s_.get("e") is e0):
-                        break
-                    for c in walk_exprs(s_):
-                        if c["k"] == "MCall" and c["m"] == "insert" and render(c["recv"]) == "file_map" and \
-                                render(c["args"][1]) == "%s.to_string()" % e["name"] and "column_expr" in render(c["args"][0]):
-                            ok = True
-            ctx.obligation(ok)
-            if not ok:
-                ctx.violation("cache/write-through/%s" % kind, ctx.where(GCEV, e0),
-                              "the value computed for a `%s` node is returned without being stored under the expression's text after the "
-                              "sign was applied; the evaluator's inner cache write holds the unsigned value under the same text, so a "
-                              "second occurrence of the expression in the row reads a different value" % kind)
-    # the arithmetic branch stores what it computes
-    calc = [c for c in walk_exprs(g) if c["k"] == "MCall" and c["m"] == "calc"]
-    for c in calc:
-        chain = path_to(g, c)
-        blks = [a for a, k in chain if a["k"] == "Block"]
-        ok = any(cc["k"] == "MCall" and cc["m"] == "insert" and render(cc["recv"]) == "file_map" and render(cc["args"][1]) == "result.to_string()"
-                 for cc in walk_exprs(blks[-1])) if blks else False
-        n += 1
-        ctx.obligation(ok)
-        if not ok:
-            ctx.violation("cache/write-through/arithmetic", ctx.where(GCEV, c), "the result of an arithmetic node is not stored under its own text")
-    ctx.covered("computed-value returns of get_column_expr_value followed by a cache write of the returned (signed) value", n,
-                distinct_keys=["function", "field", "arithmetic"])
-    ctx.floor(n, 3, "computing branches of get_column_expr_value", GCEV)
-
+    for kind in ("function", "field", "arith"):
+        for minus in ((False, True) if kind != "arith" else (False,)):
+            try:
+                got, ev, memo, text = run.run(kind, minus)
+                n += 1
+                val = gcev.text_of(ctx, got)
+                stored = memo.get(text)
+                ok = stored == val and len(memo) == 1
+                ctx.obligation(ok)
+                if not ok:
+                    ctx.violation("cache/write-through/%s" % ("arithmetic" if kind == "arith" else kind), ctx.where(GCEV),
+                                  "the value computed for a `%s` node (`%s`%s) is not what is stored under the expression's text (memo after the call: %s): "
+                                  "a second occurrence of the expression in the row reads a different value" % (kind, val, ", leading minus" if minus else "", dict(memo)))
+                if kind == "arith":
+                    ok = [e for e in ev if e[0] != "calc"] == [("operand", "L"), ("operand", "R")] and ("calc", "3", "4") in ev
+                    ctx.obligation(ok)
+                    if not ok:
+                        ctx.violation("cache/arithmetic-operands", ctx.where(GCEV), "an arithmetic node must evaluate its left and right operands and combine them in this order; events %s" % ev)
+                got2, ev2, memo2, _ = run.run(kind, minus, {text: "99"})
+                n += 1
+                ok = gcev.text_of(ctx, got2) == "99" and not ev2
+                ctx.obligation(ok)
+                if not ok:
+                    ctx.violation("cache/hit/%s" % kind, ctx.where(GCEV), "a value already stored under the expression's text must be returned without recomputation; got `%s`, events %s" % (gcev.text_of(ctx, got2), ev2))
+            except interp.Undecided as e:
+                ctx.obligation(False)
+                ctx.violation("cache/unreadable/%s" % kind, ctx.where(GCEV), "cannot evaluate get_column_expr_value on a `%s` node: %s" % (kind, e))
+    ctx.covered("memo behaviour of get_column_expr_value per node kind x minus x hit / miss", n, distinct_keys=["function", "field", "arithmetic"], exhaustive=True)
+    ctx.floor(n, 8, "memo scenarios of get_column_expr_value", GCEV)
 
 
 PREC = {"Add": 1, "Subtract": 1, "Multiply": 2, "Divide": 2, "Modulo": 2}
